@@ -4,9 +4,8 @@ set -e
 cd "$(dirname "$0")"
 export GOFLAGS=-mod=mod GOPROXY=off GOSUMDB=off GOTOOLCHAIN=local
 mkdir -p .work evidence replays
-export GOCACHE="${GOCACHE:-$PWD/.work/gocache}"
-(cd translate && go build -o ../.work/translate.bin . && ../.work/translate.bin -repo "${VERIF_REPO:-/repo}" -spec targets.json -out ../lean)
-if [ -d translate/facts ]; then (cd translate && go build -o ../.work/facts.bin ./facts && ../.work/facts.bin -repo "${VERIF_REPO:-/repo}" -out ../lean); fi
+(cd translate && go build -o ../.work/translate.bin . && ../.work/translate.bin -repo "${VERIF_REPO:-/repo}" -spec targets -out ../lean)
+if [ -d translate/facts ]; then for d in translate/facts/*/; do n=$(basename "$d"); (cd translate && go build -o ../.work/facts-$n.bin ./facts/$n && ../.work/facts-$n.bin -repo "${VERIF_REPO:-/repo}" -out ../lean); done; fi
 (cd lean && lake build Wz oracle)
 (cd harness && go build -tags verif ./...)
 echo setup-ok
